@@ -48,12 +48,20 @@ def run_case(arg):
             except Exception as ex:  # noqa: BLE001
                 raise RuntimeError(f"harness cannot instantiate case: {ex}") from ex
             t1 = _target(tmp, store, 2 * j, as_path)
+            skip_arg = list(skip)
             try:
                 with contextlib.redirect_stdout(sink):
-                    obj.save(t1, mode=mode, store=store, skip=skip, compression_level=comp)
+                    obj.save(t1, mode=mode, store=store, skip=skip_arg, compression_level=comp)
             except Exception as ex:  # noqa: BLE001
                 fail("save-raised", f"save raised {type(ex).__name__}: {str(ex)[:150]}")
                 continue
+            # save() reads its object: neither the object graph nor the caller's skip list may change
+            try:
+                untouched = sc.deep_equal(obj, sc.inst(case["o"], var)) and skip_arg == list(skip)
+            except Exception:  # noqa: BLE001
+                untouched = True
+            if not untouched:
+                fail("source-modified", "save() modified the object it was given (or the caller's skip list)")
             try:
                 with contextlib.redirect_stdout(sink):
                     got = load(t1)
